@@ -8,6 +8,7 @@ import (
 	"os"
 	"path/filepath"
 	"sort"
+	"strconv"
 	"strings"
 	"syscall"
 	"testing"
@@ -406,7 +407,7 @@ func (d *driver) fire(where string, gen int, acts []Act, paused bool, self strin
 				// re-send later if nothing happens (see loop)
 				time.Sleep(500 * time.Microsecond)
 				d.resend = append(d.resend, sig)
-				d.nextResend = time.Now().Add(100 * time.Millisecond)
+				d.nextResend = time.Now().Add(resendEvery)
 			}
 			d.w.add(gen, "", "h:"+tag, false)
 			switch a.K {
@@ -524,6 +525,15 @@ func (d *driver) safeOnly(acts []Act) []Act {
 
 const inProcessLimit = 15 * time.Second
 
+// resendEvery: how long a signal sent in the one window where Run may not be listening yet is given to show an
+// effect before it is sent again.  C20_RESEND_US shortens it (development: exercises the lossy-accounting paths).
+var resendEvery = func() time.Duration {
+	if v, err := strconv.Atoi(os.Getenv("C20_RESEND_US")); err == nil && v > 0 {
+		return time.Duration(v) * time.Microsecond
+	}
+	return 100 * time.Millisecond
+}()
+
 // drive runs one script to completion.  It returns false when the run got
 // stuck (watchdog), in which case the collector goroutine is still alive.
 func (d *driver) drive(limit time.Duration) (finished bool, stuck string) {
@@ -581,7 +591,9 @@ func (d *driver) drive(limit time.Duration) (finished bool, stuck string) {
 				// a signal sent before Run provably listened: send it again while it shows no effect
 				var keep []syscall.Signal
 				for _, sig := range d.resend {
-					if sig == syscall.SIGHUP && (d.w.loopEntered() || d.pending() <= 0) {
+					// (a reload is no proof that THIS signal arrived: a watcher event fired at the same point may have
+					// caused it - the SIGHUP is only done with once as many reloads began as triggers were counted)
+					if sig == syscall.SIGHUP && d.pending() <= 0 {
 						continue
 					}
 					d.lossy = true
@@ -589,7 +601,7 @@ func (d *driver) drive(limit time.Duration) (finished bool, stuck string) {
 					keep = append(keep, sig)
 				}
 				d.resend = keep
-				d.nextResend = now.Add(100 * time.Millisecond)
+				d.nextResend = now.Add(resendEvery)
 			}
 			if d.col.GetState() != otelcol.StateRunning || d.pending() > 0 {
 				continue
@@ -832,7 +844,8 @@ func (d *driver) oracle() *vt.Finding {
 		return nil
 	}
 	// the last generation was up: Run ended on a stop reason - or on a reload whose retiring service failed to shut down
-	ambiguous := lspec.ShutFail >= 0 && d.pending() >= 1
+	// (re-sent SIGHUPs are not counted as triggers: under lossy accounting a reload may have begun without one)
+	ambiguous := lspec.ShutFail >= 0 && (d.pending() >= 1 || d.lossy)
 	if ambiguous && provShut == 0 && final != otelcol.StateClosed {
 		c.Class("end:reload-aborted-by-failing-shutdown-of-old-service", fmt.Sprintf("end:reload-aborted:state=%v,provider-shutdown=%d", final, provShut))
 		if !mentions(err, token("shutdown", last, pick(lspec.comps(), lspec.ShutFail))) {
@@ -976,7 +989,7 @@ func run(c *vt.C) func(Script) (bool, string, *vt.Finding) {
 		d := &driver{c: c, w: w, s: &s, col: col, firedRunning: map[int]bool{}, stopKinds: map[string]bool{}}
 		limit := inProcessLimit
 		if vt.IsChild() {
-			limit = 3 * time.Second
+			limit = 5 * time.Second
 		}
 		var finished bool
 		var stuck string
